@@ -55,7 +55,7 @@ Theorem clone_then_rewrite t e h root node r p z :
        (forall b, In b (iaddrs T') -> length h <= b)).                  (* the result shares no object with it *)
 Proof.
   intros R ND Hin DD S C A.
-  destruct (clone_from_root_full t h root node R ND Hin DD) as (h1 & k & X & _ & _ & Rc & Ro & L1 & OC & OO).
+  destruct (clone_from_root_full t h root node R ND Hin DD) as (h1 & k & X & _ & _ & Rc & Ro & L1 & OC & OO & _ & _).
   destruct (rep_irep e t h1 (length h) None Rc S) as (copy & E1 & E2 & E3 & E4).
   assert (NDc : NoDup (iaddrs copy)) by (rewrite E4, OC; apply seq_NoDup).
   destruct (plan_matches r e p z C A) as (q & pl & at_ & e' & RP & Hs & Er & Ez).
